@@ -30,7 +30,9 @@ def interleavings(run):
     shutil.copy(os.path.join(vlib.SPEC, "InterleaveProof.tla"), wd)
     t0 = time.time()
     try:
-        pt = subprocess.run(["tlapm", "--threads", "8", "InterleaveProof.tla"], cwd=wd, capture_output=True, text=True, timeout=900)
+        # tlapm's front end leaves SANY* directories in the temporary directory: give it the scratch one
+        pt = subprocess.run(["tlapm", "--threads", "8", "InterleaveProof.tla"], cwd=wd, capture_output=True, text=True, timeout=900,
+                            env=dict(os.environ, TMPDIR=wd, TMP=wd, TEMP=wd))
     except subprocess.TimeoutExpired:
         raise vlib.Infra("tlapm timed out on InterleaveProof")
     m = __import__("re").search(r"All (\d+) obligations proved", pt.stdout + pt.stderr)
